@@ -421,11 +421,11 @@ auto count_min_sketch<W,A>::deserialize(const void* bytes, size_t size, uint64_t
     throw std::invalid_argument("Incompatible seed hashes: " + std::to_string(seed_hash) + ", "
                                 + std::to_string(compute_seed_hash(seed)));
   }
-  count_min_sketch c(nhashes, nbuckets, seed, allocator);
   const bool is_empty = (flags_byte & (1 << flags::IS_EMPTY)) > 0;
+  // the weight and the table follow the preamble: check before allocating the table
+  if (!is_empty) ensure_minimum_memory(size - PREAMBLE_LONGS_SHORT * sizeof(uint64_t), sizeof(W) * (1 + static_cast<size_t>(nbuckets) * nhashes));
+  count_min_sketch c(nhashes, nbuckets, seed, allocator);
   if (is_empty) return c; // sketch is empty, no need to read further.
-
-  ensure_minimum_memory(size, sizeof(W) * (1 + nbuckets * nhashes));
 
   // Long 2 is the weight.
   W weight;
